@@ -15,17 +15,17 @@ RULE = ('index types of depth <= 2 over sizes {1,2,3,4} (atoms, products, sums),
         '1/2/3 operands over a common type list, plus a structural op followed by a second op; non-trivial = an operand that is not dense '
         '(some virtual axis is not a plain physical axis)')
 ASSUMPTIONS = ['transcendental pointwise ops (exp, log, expm1, log1p, logaddexp, log_softmax) are compared within 1e-12 relative',
-               'grad/requires_grad_/detach/norm (autograd plumbing) are exercised elsewhere, not here']
+               'grad/requires_grad_/detach (autograd plumbing) are exercised elsewhere, not here']
 
 # every public attribute of PatternedTensor must be classified here: tested below, or excluded with a reason
 EXCLUDED = {'physical', 'paxes', 'vaxes', 'default', 'depict', 'nonphysical', 'freshen', 'isdisjoint', 'requires_grad', 'requires_grad_', 'grad',
-            'detach', 'is_complex', 'norm', 'item', 'masked_fill_into', 'expansion', 'commutative', 'binary', 'solve', 'mv', 'mm', 'from_int',
+            'detach', 'is_complex', 'item', 'masked_fill_into', 'expansion', 'commutative', 'binary', 'solve', 'mv', 'mm', 'from_int',
             'eye', 'full', 'equal', 'allclose', 'equal_default', 'allclose_default', 'dtype', 'shape', 'size', 'numel', 'dim', 'ndim',
             'ndimension', 'expand_as', 'repeat'}
 TESTED = {'add', 'sub', 'mul', 'div', 'logaddexp', 'maximum', 'logical_and', 'logical_or', 'logical_not', 'lt', 'le', 'gt', 'ge', 'eq',
           'abs', 'exp', 'expm1', 'log', 'neg_', 'log_', 'log1p_', 'relu_', 'abs_', 'nan_to_num_', 'clamp_min', 'clamp_max', 'to', 'where', 'any',
           'log_softmax', 'permute', 'transpose', 't', 'T', 'flatten', 'unsqueeze', 'expand', 'reshape', 'view', 'clone', 'copy_', 'default_to',
-          'project', 'dim_to_dense', 'tolist', 'to_dense', 'stack'}
+          'project', 'dim_to_dense', 'tolist', 'to_dense', 'stack', 'norm'}
 
 
 def is_dense(t):
@@ -848,6 +848,10 @@ def run(ctx):
                 check(ctx, f'any_{dim}_{keep}', [tb], lambda a, dim=dim, keep=keep: a.any(dim, keepdim=keep),
                       lambda a, dim=dim, keep=keep: a.any(dim, keepdim=keep), True, reqs, meta)
             check(ctx, f'log_softmax_{dim}', [t], lambda a, dim=dim: a.log_softmax(dim), lambda a, dim=dim: a.log_softmax(dim), False, reqs, meta)
+            for pn in (1, 2):
+                keep = ctx.rng.random() < 0.5
+                check(ctx, f'norm_{pn}_{dim}_{keep}', [t], lambda a, dim=dim, pn=pn, keep=keep: a.norm(pn, dim, keepdim=keep),
+                      lambda a, dim=dim, pn=pn, keep=keep: a.norm(pn, dim, keepdim=keep), False, reqs, meta)
             check(ctx, f'dim_to_dense_{dim}', [t], lambda a, dim=dim: a.dim_to_dense(dim), lambda a: a, True, reqs, meta)
             check(ctx, f'unsqueeze_{dim}', [t], lambda a, dim=dim: a.unsqueeze(dim), lambda a, dim=dim: a.unsqueeze(dim), True, reqs, meta)
             check(ctx, f'getitem_{dim}', [t], lambda a: a[0] if a.shape[0] else a, lambda a: a[0] if a.shape[0] else a, True, reqs, meta)
